@@ -1,12 +1,18 @@
-// asm_test.go: a tiny assembler and the program grammar.  Programs are straight-line sequences
-// of statements over the scenario's universe: value-bearing CALLs (and CALLCODE / DELEGATECALL /
-// STATICCALL) to plain accounts, to the other contracts (mutual recursion, bounded by gas), to a
-// precompile; CREATE with small init programs; SSTORE set / clear (gas refund); and one
-// terminator: STOP, RETURN, REVERT, INVALID, an endless loop (out of gas) or SELFDESTRUCT to
-// another account / to the own address.
+// asm_test.go: a tiny assembler and the program grammar.  Programs are sequences of statements
+// over the scenario's universe: value-bearing CALLs (and CALLCODE / DELEGATECALL / STATICCALL) to
+// plain accounts, to the other contracts (mutual recursion, bounded by gas), to a precompile;
+// CREATE with small init programs; SSTORE set / clear (gas refund); bounded loops (2..64
+// iterations, JUMPI back-edge on a counter) around call-family statements, so that per-iteration
+// gas effects accumulate; and one terminator: STOP, RETURN, REVERT, INVALID, an endless loop (out
+// of gas) or SELFDESTRUCT to another account / to the own address.
+// Value operands of CALL / CALLCODE / CREATE come from small amounts and from the boundary pool
+// {0, 1, balance, balance+1, 2^64-1, 2^64, 2^255-1, 2^255, 2^256-1} (transfers that fail with
+// "insufficient balance" inside frames, with huge values); gas operands from small constants, GAS
+// and {2^64-1, 2^64, 2^64+k, 2^255, 2^256-1}.
 package txexec
 
 import (
+	"math/big"
 	"math/rand"
 
 	"github.com/kardiachain/go-kardia/lib/common"
@@ -14,6 +20,13 @@ import (
 
 const (
 	opSTOP         = 0x00
+	opADD          = 0x01
+	opSUB          = 0x03
+	opADDRESS      = 0x30
+	opBALANCE      = 0x31
+	opJUMPI        = 0x57
+	opDUP1         = 0x80
+	opSWAP1        = 0x90
 	opPOP          = 0x50
 	opMSTORE       = 0x52
 	opSSTORE       = 0x55
@@ -52,6 +65,42 @@ func (a *asm) push(v uint64) *asm {
 	return a
 }
 
+// pushBig pushes an arbitrary 256-bit constant
+func (a *asm) pushBig(v *big.Int) *asm {
+	b := v.Bytes()
+	if len(b) == 0 {
+		b = []byte{0}
+	}
+	a.b = append(a.b, byte(opPUSH1+len(b)-1))
+	a.b = append(a.b, b...)
+	return a
+}
+
+// operand of a statement: a small constant, a 256-bit constant, the own balance (+1), or GAS
+type operand struct {
+	small uint64
+	big   *big.Int
+	kind  int // 0 small, 1 big, 2 balance, 3 balance+1, 4 GAS
+}
+
+func (a *asm) pushOperand(o operand) *asm {
+	switch o.kind {
+	case 1:
+		return a.pushBig(o.big)
+	case 2:
+		return a.op(opADDRESS, opBALANCE)
+	case 3:
+		return a.push(1).op(opADDRESS, opBALANCE, opADD)
+	case 4:
+		return a.op(opGAS)
+	}
+	return a.push(o.small)
+}
+
+func pow2(n uint, d int64) *big.Int {
+	return new(big.Int).Add(new(big.Int).Lsh(big.NewInt(1), n), big.NewInt(d))
+}
+
 func (a *asm) pushAddr(x common.Address) *asm {
 	a.b = append(a.b, opPUSH20)
 	a.b = append(a.b, x.Bytes()...)
@@ -72,22 +121,37 @@ func (a *asm) mstoreBytes(data []byte) *asm {
 
 // call-like statement: result popped
 func (a *asm) call(op byte, to common.Address, value uint64, gas int) *asm {
+	g := operand{small: uint64(gas)}
+	if gas < 0 {
+		g = operand{kind: 4}
+	}
+	return a.callOp(op, to, operand{small: value}, g)
+}
+
+func (a *asm) callOp(op byte, to common.Address, value, gas operand) *asm {
 	a.push(0).push(0).push(0).push(0) // retSize retOff argSize argOff
 	if op == opCALL || op == opCALLCODE {
-		a.push(value)
+		a.pushOperand(value)
 	}
 	a.pushAddr(to)
-	if gas < 0 {
-		a.op(opGAS)
-	} else {
-		a.push(uint64(gas))
-	}
+	a.pushOperand(gas)
 	return a.op(op, opPOP)
 }
 
-func (a *asm) create(value uint64, init []byte) *asm {
+func (a *asm) create(value operand, init []byte) *asm {
 	a.mstoreBytes(init)
-	return a.push(uint64(len(init))).push(0).push(value).op(opCREATE, opPOP)
+	return a.push(uint64(len(init))).push(0).pushOperand(value).op(opCREATE, opPOP)
+}
+
+// loop wraps body (stack-neutral) in a counted loop of n iterations
+func (a *asm) loop(n int, body func()) *asm {
+	a.push(uint64(n))
+	top := len(a.b)
+	a.op(opJUMPDEST)
+	body()
+	a.push(1).op(opSWAP1, opSUB, opDUP1) // counter-1, copy for the test
+	a.b = append(a.b, opPUSH1+1, byte(top>>8), byte(top)) // PUSH2 top
+	return a.op(opJUMPI, opPOP)
 }
 
 func (a *asm) sstore(slot, val uint64) *asm { return a.push(val).push(slot).op(opSSTORE) }
@@ -118,6 +182,58 @@ func (g *gen) amount() uint64 {
 		return uint64(100 + g.rng.Intn(900))
 	default:
 		return uint64(1 + g.rng.Intn(60))
+	}
+}
+
+// value operand: mostly small amounts, one time in four from the boundary pool
+func (g *gen) value() operand {
+	if g.rng.Intn(4) > 0 {
+		return operand{small: g.amount()}
+	}
+	switch g.rng.Intn(9) {
+	case 0:
+		return operand{small: 0}
+	case 1:
+		return operand{small: 1}
+	case 2:
+		return operand{kind: 2} // the whole balance
+	case 3:
+		return operand{kind: 3} // one more than the balance
+	case 4:
+		return operand{kind: 1, big: pow2(64, -1)}
+	case 5:
+		return operand{kind: 1, big: pow2(64, 0)}
+	case 6:
+		return operand{kind: 1, big: pow2(255, -1)}
+	case 7:
+		return operand{kind: 1, big: pow2(255, 0)}
+	default:
+		return operand{kind: 1, big: pow2(256, -1)}
+	}
+}
+
+// gas operand of a call
+func (g *gen) gasOperand() operand {
+	if g.rng.Intn(8) > 0 {
+		c := g.callGas()
+		if c < 0 {
+			return operand{kind: 4}
+		}
+		return operand{small: uint64(c)}
+	}
+	switch g.rng.Intn(6) {
+	case 0:
+		return operand{kind: 1, big: pow2(64, -1)}
+	case 1:
+		return operand{kind: 1, big: pow2(64, 0)}
+	case 2:
+		return operand{kind: 1, big: pow2(64, int64(1+g.rng.Intn(5000)))}
+	case 3:
+		return operand{kind: 1, big: pow2(255, 0)}
+	case 4:
+		return operand{kind: 1, big: pow2(32, int64(g.rng.Intn(3))-1)}
+	default:
+		return operand{kind: 1, big: pow2(256, -1)}
 	}
 }
 
@@ -222,19 +338,54 @@ func (g *gen) initCode(depth int) []byte {
 	return a.b
 }
 
-func (g *gen) statement(a *asm, depth int) {
-	switch r := g.rng.Intn(20); {
-	case r < 8:
-		a.call(opCALL, g.target(), g.amount(), g.callGas())
+// callStatement: one call-family instruction
+func (g *gen) callStatement(a *asm) {
+	switch r := g.rng.Intn(11); {
+	case r < 6:
+		a.callOp(opCALL, g.target(), g.value(), g.gasOperand())
 	case r < 9:
-		a.call(opCALLCODE, g.target(), g.amount(), g.callGas())
+		a.callOp(opCALLCODE, g.target(), g.value(), g.gasOperand())
 	case r < 10:
-		a.call(opDELEGATECALL, g.target(), 0, g.callGas())
+		a.callOp(opDELEGATECALL, g.target(), operand{}, g.gasOperand())
+	default:
+		a.callOp(opSTATICCALL, g.target(), operand{}, g.gasOperand())
+	}
+}
+
+func (g *gen) iterations() int {
+	switch g.rng.Intn(4) {
+	case 0:
+		return 2 + g.rng.Intn(3)
+	case 1:
+		return 5 + g.rng.Intn(12)
+	case 2:
+		return 17 + g.rng.Intn(24)
+	default:
+		return 41 + g.rng.Intn(24) // .. 64
+	}
+}
+
+func (g *gen) statement(a *asm, depth int) {
+	switch r := g.rng.Intn(22); {
+	case r < 8:
+		a.callOp(opCALL, g.target(), g.value(), g.gasOperand())
+	case r < 9:
+		a.callOp(opCALLCODE, g.target(), g.value(), g.gasOperand())
+	case r < 10:
+		a.callOp(opDELEGATECALL, g.target(), operand{}, g.gasOperand())
 	case r < 11:
-		a.call(opSTATICCALL, g.target(), 0, g.callGas())
-	case r < 14:
+		a.callOp(opSTATICCALL, g.target(), operand{}, g.gasOperand())
+	case r < 13:
+		// a bounded loop around one or two call-family instructions
+		a.loop(g.iterations(), func() {
+			g.callStatement(a)
+			if g.rng.Intn(3) == 0 {
+				g.callStatement(a)
+			}
+		})
+	case r < 16:
 		if depth < 2 {
-			a.create(g.amount(), g.initCode(depth))
+			a.create(g.value(), g.initCode(depth))
 		} else {
 			a.sstore(uint64(g.rng.Intn(3)), uint64(g.rng.Intn(2)))
 		}
